@@ -34,7 +34,16 @@ def part_b(tier, out):
         return {"build_failed": True, "thread_error_in_build": thread_err, "stderr": err}, (1 if thread_err else 2), None
     programs, schedules = (3000, 10) if tier == "quick" else (150000, 40)
     outf = SIM + "/target-ts/thsim-summary.json"
-    r = sh(f"./target-ts/release/thsim run --programs {programs} --schedules {schedules} --seed {SEED} --threads {THREADS} --replay-dir {ROOT}/replays --out {outf}", cwd=SIM)
+    if os.path.exists(outf):
+        os.remove(outf)
+    try:
+        r = sh(f"./target-ts/release/thsim run --programs {programs} --schedules {schedules} --seed {SEED} --threads {THREADS} --replay-dir {ROOT}/replays --out {outf}", cwd=SIM,
+               timeout=300 if tier == "quick" else 5400)
+    except subprocess.TimeoutExpired:
+        sh("pkill -KILL -f 'target-ts/release/thsim run'")
+        return ({"blocked": True,
+                 "what": "thsim did not finish: an OS-level lock (not a shuttle primitive) is held across a seam callback, so the suspended shuttle task that holds it can never be resumed by the task that waits for it on the same OS thread. Real threads would not deadlock here, so this is reported as a harness limitation (inconclusive), never as a violation; Miri (real threads) still runs."},
+                3, None)
     sys.stdout.write(r.stdout)
     try:
         summ = json.load(open(outf))
@@ -54,7 +63,7 @@ MIRI_ERR = re.compile(r"error: (Undefined Behavior|unsupported operation|.*[Dd]a
 
 
 def part_c(tier, out):
-    seeds, programs = (16, 8) if tier == "quick" else (64, 32)
+    seeds, programs = (16, 6) if tier == "quick" else (64, 32)
     flags = f"-Zmiri-many-seeds=0..{seeds} -Zmiri-preemption-rate=0.1 -Zmiri-disable-isolation"
     env = dict(ENV, MIRIFLAGS=flags)
     t0 = time.time()
@@ -111,9 +120,13 @@ def main():
 
     b, cb, vb = ({}, 0, None)
     c, cc, vc = ({}, 0, None)
+    blocked = False
     if code != 2:
         b, cb, vb = part_b(tier, None)
-        if cb == 1:
+        if cb == 3:
+            blocked = True
+            print("HARNESS (thsim): inconclusive —", b["what"], file=sys.stderr)
+        elif cb == 1:
             if vb is None:
                 path = f"{ROOT}/replays/C20/build-{SEED}.json"
                 json.dump({"property": "C20", "mode": "build", "stderr": b.get("stderr", "")}, open(path, "w"), indent=1)
@@ -132,6 +145,8 @@ def main():
         elif cc == 2:
             print("HARNESS (miri):", json.dumps(c)[:2000], file=sys.stderr)
             code = 2
+    if blocked and code == 0:
+        code = 2
 
     wall = time.time() - t0
     evals = a["obligations_total"] + int(b.get("executions", 0) or 0) + int(c.get("program_executions_ok", 0) or 0)
